@@ -360,9 +360,13 @@ def activate_domain_and_interventions(
     if isinstance(expression, Probability):
         if not isinstance(expression, PopulationProbability):
             raise TypeError
+        children = set(expression.children) - interventions
+        if not children:
+            # every variable of the term is held fixed by the experiment, so its probability is one
+            return One()
         return PopulationProbability(
             population=domain,
-            distribution=Distribution.safe(set(expression.children) - interventions),
+            distribution=Distribution.safe(children),
         ).intervene(interventions)
     if isinstance(expression, Sum):
         # TODO need full integration test to trso() function that covers this branch
